@@ -205,8 +205,12 @@ class Gen:
             for n in range(1, self.nitems[fid] + 1):
                 files[fid]["items"].append([ptr_for(fid, "items", f"I{n}"), self.item(fid, keys, ids)])
         paths = []
-        pool = ["/a", "/b/{id}", "/c", "/d~x/{id}", "/e"]
-        for p in pool[: (npaths or rng.choice([1, 2, 2, 3, 4]))]:
+        pool = ["/a", "/b/{id}", "/c", "/d~x/{id}", "/e", "/f~1g/{id}", "/h~01", "/i~0~1j"]
+        k = npaths or rng.choice([1, 2, 2, 3, 4])
+        # the first paths always (witness documents rely on them), the last slot from the rest of the pool: paths whose
+        # JSON-pointer spelling needs ~0 / ~1 and contains text that looks like an escape
+        chosen = pool[:k] if k < 2 or rng.random() < 0.4 else pool[:k - 1] + [rng.choice(pool[k - 1:])]
+        for p in chosen:
             e = self.ref_entry(0, "items") if rng.random() < (0.45 if self.multi else 0.25) else None
             if e is not None:
                 paths.append([p, e])
